@@ -3,6 +3,7 @@
 package app
 
 import (
+	"strings"
 	"time"
 )
 
@@ -95,4 +96,43 @@ func vC14HTTPTraffic(patterns string, nPat int) {
 		vAssert("C14.http.hang-delayed", slept >= 10000)
 	}
 	vReach("C14.http.end")
+}
+
+// ---- status-code patterns through the real request entry: statuscode_[{cycle:30,rsq:1,code:404}] is parsed by the
+// real parser and the request for segment n (any n, start time, start number; at an instant where it is available)
+// is answered with the configured code exactly when n is the rsq-th segment starting in its 30 s cycle, 200 otherwise.
+
+func init() {
+	vHarnesses["vH_C14_http_status_c30"] = vH_C14_http_status_c30
+	vHarnesses["vH_C14_http_status_audio_c30"] = vH_C14_http_status_audio_c30
+}
+
+func vH_C14_http_status_c30()       { vC14HTTPStatus("V300") }
+func vH_C14_http_status_audio_c30() { vC14HTTPStatus("A48") }
+
+func vC14HTTPStatus(repID string) {
+	a := vAsset_testpic_2s()
+	vPrepareRegexps(a)
+	rep := a.Reps[repID]
+	ref := a.refRep
+	ts := ref.MediaTimescale
+	startNr := vInt("startNr", 0, 1<<20)
+	startS := vInt("startS", 0, 1<<32-1)
+	n := vInt("n", 0, 1<<26)
+	rsq := vConc(vInt("rsq", 0, 3))
+	extra := vInt("extra", 0, 59000)
+	endTicks := vSegEndTicks(a, ref, n)
+	now := 1000*startS + (1000*endTicks+ts-1)/ts + extra
+	segID := startNr + n
+	vStubRep, vStubSegID = rep, segID
+	media := strings.ReplaceAll(rep.MediaURI, "$Number$", "%d")
+	path := vStrf("/livesim2/start_%d/snr_%d/statuscode_[{cycle:30,rsq:%d,code:404}]/testpic_2s/"+media, startS, startNr, rsq, segID)
+	s := vHTTPServer(a)
+	w := vHTTPGet(s, path, now)
+	if vC14Hit(a, ref, n, 30, rsq) {
+		vAssert("C14.http.status.hit-gets-code", w.status == 404)
+	} else {
+		vAssert("C14.http.status.others-normal", w.status == 200)
+	}
+	vReach("C14.http.status.end")
 }
